@@ -626,3 +626,9 @@ Definition normalized_fields (r : rawcall) : option (list pyval) :=
   | Some c => Some (map (getf (nc_fields c)) ["inputs"; "output"; "size_dict"; "optimize"]%string)
   | None => None
   end.
+Definition raw_default : rawcall := mkRaw [] None None None PNone false false [] false false.
+Definition norm_at (idxs : list nat) (rs : list rawcall) : list (option (list pyval)) :=
+  map (fun i => normalized_fields (nth i rs raw_default)) idxs.
+(* both observations of one sequence *)
+Definition observe_raw (e : henv) (k : kexpr) (fallback : bool) (idxs : list nat) (rs : list rawcall) :=
+  (trace_raw e k fallback rs, norm_at idxs rs).
